@@ -80,7 +80,9 @@ def gStep (st : St) (w : List String) : Option (St × String) :=
   match w with
   | ["g.pkg"] => some ({ st with g := {}, ws := none }, ".")
   | ["g.part", p] => (unhexS p).map fun p => ({ st with g := { g with parts := p :: g.parts } }, ".")
-  | ["g.bad", p] => (unhexS p).map fun p => ({ st with g := { g with badXml := p :: g.badXml } }, ".")
+  | ["g.bad", p, i] => match unhexS p, unhexS i with
+    | some p, some i => some ({ st with g := { g with badXml := (p, i) :: g.badXml } }, ".")
+    | _, _ => none
   | ["g.def", e, c] => match unhexS e, unhexS c with
     | some e, some c => some ({ st with g := { g with defaults := (e, c) :: g.defaults } }, ".")
     | _, _ => none
